@@ -24,66 +24,24 @@ class PageListener(interpose.Listener):
             self.pages.append(rows[0][0] * self.page_size)
 
 
-class SeqRunner:
-    def __init__(self, cfg, seed=0, cls='Cache'):
-        """cfg: dict(policy, cull, limit, stats, min_file_size, tag_index, protocol?)"""
-        import diskcache
-        self.dc = diskcache
-        self.cfg = cfg
-        self.clock = envctl.Clock().install()
-        envctl.SeededUrandom(seed).install()
-        self.dir = envctl.scratch('seq')
-        self.listener = PageListener()
-        interpose.install(self.listener, self.dir)
-        settings = dict(eviction_policy=POLICY[cfg['policy']], cull_limit=cfg['cull'],
-                        size_limit=cfg['limit'], statistics=cfg['stats'],
-                        disk_min_file_size=cfg.get('min_file_size', 2 ** 15),
-                        tag_index=cfg.get('tag_index', 0))
-        if 'protocol' in cfg:
-            settings['disk_pickle_protocol'] = cfg['protocol']
-        self.cache = diskcache.Cache(self.dir, timeout=1, **settings)
-        self.km = KeyMap(self.cache.disk.pickle_protocol)
-        self.vm = ValMap(cfg.get('min_file_size', 2 ** 15), self.cache.disk.pickle_protocol,
-                         cfg.get('unit', 1024))
-        self.obs = interpose.real_connect(os.path.join(self.dir, 'cache.db'), timeout=5,
-                                          isolation_level=None)
-        ((self.listener.page_size,),) = self.obs.execute('PRAGMA page_size').fetchall()
-        self.events = []
+class ApiAdapter:
+    """Abstract operation -> real API call on a cache object -> normalised result."""
 
-    def close(self):
+    def __init__(self, dc, km, vm, clock):
+        self.dc = dc
+        self.km = km
+        self.vm = vm
+        self.clock = clock
+
+    def call(self, c, name, a, form=0):
         try:
-            self.obs.close()
-            self.cache.close()
-        finally:
-            interpose.set_listener(None)
-            self.clock.uninstall()
-            envctl.SeededUrandom.uninstall()
-            envctl.rm(self.dir)
-
-    # ------------------------------------------------------------ projection
-    def project(self):
-        rows = []
-        sel = ('SELECT key, raw, expire_time, tag, size, mode, filename, value'
-               ' FROM Cache ORDER BY rowid')
-        disk = self.cache.disk
-        for key, raw, exp, tag, size, mode, filename, value in self.obs.execute(sel).fetchall():
-            try:
-                pk = disk.get(key, raw)
-                mk = self.km.to_model(pk)
-            except Exception:
-                mk = [9, 1]
-            try:
-                pv = disk.fetch(mode, filename, value, False)
-                mv = self.vm.to_model(pv)
-            except (IOError, OSError):
-                mv = -2                      # row refers to a missing file
-            except Exception:
-                mv = -1
-            rows.append([mk, mv, exp_model(exp), tag_model(tag), size])
-        st = dict(self.obs.execute('SELECT key, value FROM Settings').fetchall())
-        ctr = [st['count'], st['size'], st['hits'], st['misses']]
-        ((pc,),) = self.obs.execute('PRAGMA page_count').fetchall()
-        return rows, ctr, pc * self.listener.page_size
+            return self._call(c, name, a, form)
+        except (KeyError, TypeError, ValueError, IndexError, AssertionError) as exc:
+            return R(type(exc).__name__)
+        except self.dc.Timeout:
+            return R('Timeout')
+        except interpose.sqlite3.Error as exc:
+            return R(type(exc).__name__)
 
     # ------------------------------------------------------------ results
     def _val(self, x):
@@ -116,29 +74,6 @@ class SeqRunner:
         if main is SENT:
             return None
         return [self._val(main)] + extra
-
-    # ------------------------------------------------------------ one step
-    def step(self, op):
-        """op: dict with 'op' and abstract args (see CacheSeqTrace.Dispatch)."""
-        c = self.cache
-        name = op['op']
-        a = dict(op.get('a', {}))
-        form = op.get('form', 0)
-        self.listener.pages = []
-        now = self.clock.tick
-        try:
-            ret = self._call(c, name, a, form)
-        except (KeyError, TypeError, ValueError, IndexError) as exc:
-            ret = R(type(exc).__name__)
-        except self.dc.Timeout:
-            ret = R('Timeout')
-        except Exception as exc:           # anything else is reported by name
-            ret = R(type(exc).__name__)
-        rows, ctr, pbe = self.project()
-        ev = {'op': name, 'a': a, 'now': now, 'pb': list(self.listener.pages), 'pbe': pbe,
-              'ret': ret, 'rows': rows, 'ctr': ctr}
-        self.events.append(ev)
-        return ev
 
     def _store_args(self, a):
         v = a['v']
@@ -238,6 +173,87 @@ class SeqRunner:
             h, m = c.stats(enable=bool(a['en']), reset=bool(a['rs']))
             return R('pair', [h, m])
         raise MachineryError('unknown abstract operation %r' % (name,))
+
+
+class SeqRunner:
+    def __init__(self, cfg, seed=0, cls='Cache'):
+        """cfg: dict(policy, cull, limit, stats, min_file_size, tag_index, protocol?)"""
+        import diskcache
+        self.dc = diskcache
+        self.cfg = cfg
+        self.clock = envctl.Clock().install()
+        envctl.SeededUrandom(seed).install()
+        self.dir = envctl.scratch('seq')
+        self.listener = PageListener()
+        interpose.install(self.listener, self.dir)
+        settings = dict(eviction_policy=POLICY[cfg['policy']], cull_limit=cfg['cull'],
+                        size_limit=cfg['limit'], statistics=cfg['stats'],
+                        disk_min_file_size=cfg.get('min_file_size', 2 ** 15),
+                        tag_index=cfg.get('tag_index', 0))
+        if 'protocol' in cfg:
+            settings['disk_pickle_protocol'] = cfg['protocol']
+        self.cache = diskcache.Cache(self.dir, timeout=1, **settings)
+        self.km = KeyMap(self.cache.disk.pickle_protocol)
+        self.vm = ValMap(cfg.get('min_file_size', 2 ** 15), self.cache.disk.pickle_protocol,
+                         cfg.get('unit', 1024))
+        self.obs = interpose.real_connect(os.path.join(self.dir, 'cache.db'), timeout=5,
+                                          isolation_level=None)
+        ((self.listener.page_size,),) = self.obs.execute('PRAGMA page_size').fetchall()
+        self.api = ApiAdapter(diskcache, self.km, self.vm, self.clock)
+        self.events = []
+
+    def close(self):
+        try:
+            self.obs.close()
+            self.cache.close()
+        finally:
+            interpose.set_listener(None)
+            self.clock.uninstall()
+            envctl.SeededUrandom.uninstall()
+            envctl.rm(self.dir)
+
+    # ------------------------------------------------------------ projection
+    def project(self):
+        rows = []
+        sel = ('SELECT key, raw, expire_time, tag, size, mode, filename, value'
+               ' FROM Cache ORDER BY rowid')
+        disk = self.cache.disk
+        for key, raw, exp, tag, size, mode, filename, value in self.obs.execute(sel).fetchall():
+            try:
+                pk = disk.get(key, raw)
+                mk = self.km.to_model(pk)
+            except Exception:
+                mk = [9, 1]
+            try:
+                pv = disk.fetch(mode, filename, value, False)
+                mv = self.vm.to_model(pv)
+            except (IOError, OSError):
+                mv = -2                      # row refers to a missing file
+            except Exception:
+                mv = -1
+            rows.append([mk, mv, exp_model(exp), tag_model(tag), size])
+        st = dict(self.obs.execute('SELECT key, value FROM Settings').fetchall())
+        ctr = [st['count'], st['size'], st['hits'], st['misses']]
+        ((pc,),) = self.obs.execute('PRAGMA page_count').fetchall()
+        return rows, ctr, pc * self.listener.page_size
+
+    # ------------------------------------------------------------ one step
+    def step(self, op):
+        """op: dict with 'op' and abstract args (see CacheSeqTrace.Dispatch)."""
+        name = op['op']
+        a = dict(op.get('a', {}))
+        form = op.get('form', 0)
+        self.listener.pages = []
+        now = self.clock.tick
+        try:
+            ret = self.api.call(self.cache, name, a, form)
+        except Exception as exc:           # anything else is reported by name
+            ret = R(type(exc).__name__)
+        rows, ctr, pbe = self.project()
+        ev = {'op': name, 'a': a, 'now': now, 'pb': list(self.listener.pages), 'pbe': pbe,
+              'ret': ret, 'rows': rows, 'ctr': ctr}
+        self.events.append(ev)
+        return ev
 
     def init_record(self):
         return {'policy': self.cfg['policy'], 'cull': self.cfg['cull'], 'limit': self.cfg['limit'],
